@@ -19,24 +19,32 @@ import numpy as np
 from lib import hw12, sim
 
 RULE = ("X-series: source programs over 2N = 4..12 modes (S2gates in any order incl. zero / missing / repeated squeezers "
-        "on one or several pairs / unequal phases, Sgate+BSgate constructions, Interferometer of 7 unitary classes or "
-        "mirrored BS/MZ/R sequences, split or partial measurements, dependency-respecting and arbitrary reorderings, "
-        "template instances with mutated gates) x device specs (fixture ranges, interval and narrowed ranges, default "
-        "compiler lists, mode limits) x compiler Xstrict|Xunitary|Xcov; TDM: Borealis programs (user-set / left-out loop "
-        "offsets, truncated or mutated circuits, in- and out-of-range arguments, 10..60 time bins) and single-loop "
-        "TD2/TDM programs.  Non-trivial = accepted compile of a program with >= 1 non-zero squeezer or a rejected one "
-        "with >= 3 commands; distinct by (spec parameters, compiler, program).")
+        "on one or several pairs / unequal phases / inverted (.H) commands / reversed pairs / gates between squeezers, Sgate+BSgate "
+        "constructions, Interferometer of 7 unitary classes or mirrored BS/MZ/R sequences incl. inverted gates, halves that differ "
+        "clearly or just beyond numpy.allclose's tolerance, split / partial / reordered measurements with select / dark_counts, "
+        "dependency-respecting and arbitrary reorderings, shared operation objects, a deleted extra mode, template instances with "
+        "mutated gates) x device specs (fixture ranges, interval / narrowed ranges, no ranges (None / {}), default compiler lists, mode "
+        "limits) x compiler Xstrict|Xunitary|Xcov; every case: inputs snapshotted, a third compiled twice.  TDM: Borealis programs "
+        "(user-set / left-out loop offsets, truncated or mutated circuits, in- and out-of-range arguments, arguments through "
+        "tdm.utils.make_phases_compatible, realistic_loss, 10..60 time bins, compiled twice) and single-loop TD2/TDM programs on two "
+        "layouts; compile histories with and without reset_circuit(); helper functions.  Non-trivial = accepted compile of a program "
+        "with >= 1 non-zero squeezer or a rejected one with >= 3 commands; distinct by (spec parameters, compiler, program).")
 ASSUMPTIONS = ["'same photon-number statistics' is checked as: equal (N, M) moments (Xunitary/Xstrict, 1e-6) resp. equal |N|, |M| "
-               "and equal probabilities of sampled Fock patterns (Xcov) of the zero-mean Gaussian state before the measurement",
-               "a ValueError raised by Device.validate_parameters ('has invalid value' / 'not a valid parameter') counts as a "
-               "documented rejection, like CircuitError",
-               "the synthetic X layouts for N != 4 extend the X8_01 fixture (checked equal to the fixture for N = 4 on every run)"]
+               "and equal probabilities of sampled Fock patterns (Xcov) of the zero-mean Gaussian state before the measurement; for "
+               "Borealis: equal |N|, |M| of all pulses of the space-unrolled compiled circuit (loop offsets as gates) and of the source "
+               "with the documented pi shifts of loops 1 and 2 applied",
+               "a ValueError raised by Device.validate_parameters ('has invalid value' / 'not a valid parameter') or by the Blackbird "
+               "writer for an inverted gate it cannot express counts as a documented rejection, like CircuitError",
+               "the synthetic X layouts for N != 4 extend the X8_01 fixture (checked equal to the fixture for N = 4 on every run)",
+               "post-selection / dark counts of the Fock measurements belong to the experiment: an accepted compile must keep them"]
 TRUSTED = ["modelled: Range/Ranges.__contains__, Device.gate_parameters/validate_parameters, Compiler.init_circuit, "
            "Program/TDMProgram.assert_modes, rectangular_MZ/rectangular_symmetric mode pairs + Interferometer._decompose skeleton, "
-           "xunitary.list_duplicates + S2-merge loop, Borealis.compile offset insertion, Borealis.update_params arithmetic",
+           "xunitary.list_duplicates + S2-merge loop (incl. inverse flag), Xunitary's orthogonality / block / symmetry verdict and Xcov's "
+           "adjacency-block verdict with numpy.allclose's tolerances, thewalrus expand (index logic), Xcov squeezer bookkeeping, "
+           "Borealis.compile offset insertion, Borealis.update_params arithmetic",
            "not modelled (exercised by the oracle only): Blackbird match_template / NetworkX isomorphism, Clements angles, Takagi, "
-           "GaussianUnitary symplectic extraction; thewalrus density_matrix_element for Fock probabilities; "
-           "reference states from lib/sim.py (own symplectic matrices)"]
+           "GaussianUnitary symplectic extraction, thewalrus Amat, Borealis.add_loss, tdm.utils helpers, Device.create_program; "
+           "thewalrus density_matrix_element for Fock probabilities; reference states from lib/sim.py (own symplectic matrices)"]
 
 logging.disable(logging.WARNING)
 PI = math.pi
@@ -1010,7 +1018,10 @@ def history_oracle(ctx, sf, fx):
         for _k in range(3):
             c = gen_tdm1_case(rng)
             c["target"] = tgt
-            c["mut"] = rng.choice([None, None, "sq-value", "bs-swapped"])
+            c["mut"] = None if _k < 2 else rng.choice([None, "sq-value", "bs-swapped"])
+            c["sqfix"] = [0.5643, 0.3, rng.choice([0.5643, 0.3])][_k]
+            c["alpha"] = [min(a, 6.0) for a in c["alpha"]]
+            c["phi"] = [x if 0 <= x <= PI else 0.5 for x in c["phi"]]
             pool.append(c)
         b = gen_borealis_case(rng)
         b.update(L=10, args=[a[:10] for a in b["args"]], mut=None, loss=False, via_utils=False)
@@ -1021,11 +1032,18 @@ def history_oracle(ctx, sf, fx):
             prog, dev, cn = prepare_any(sf, fx, c)
             fresh.append(outcome_any(sf, prog, dev, cn))
         hard_reset(sf)
-        seq = [rng.randrange(len(pool)) for _ in range(10)]
+        # scripted pairs first: two programs accepted on a fresh class, same compiler class, different layouts
+        steps = []
+        layouts = [strip(prepare_any(sf, fx, c)[1].layout) for c in pool]
+        names = [(c.get("comp") or c.get("target") or "borealis") for c in pool]
+        pairs = [(i, j) for i in range(len(pool)) for j in range(len(pool)) if i != j and names[i] == names[j]
+                 and layouts[i] != layouts[j] and fresh[i][0] == "ok" and fresh[j][0] == "ok"]
+        for (i, j) in pairs[:2]:
+            steps += [(i, "reset"), (j, "reset"), (i, "reset"), (j, "none"), (j, "reset"), (j, "none")]
+        steps += [(rng.randrange(len(pool)), rng.choice(["reset", "reset", "none"])) for _ in range(8)]
         hist = []
-        for i in seq:
+        for i, policy in steps:
             c = pool[i]
-            policy = rng.choice(["reset", "reset", "none"])
             prog, dev, cn = prepare_any(sf, fx, c)
             name = cn or dev.default_compiler
             cls = compiler_db[name]
